@@ -12,6 +12,7 @@ RULE = ("one case = (method by name or class, state shape, span direction, t_eva
         "trajectory bit-equal to the object API driven with the same settings, agreement with scipy.integrate.solve_ivp; non-trivial = call returned; distinct "
         "by (method, shape, direction, t_eval kind, options, seed)")
 ASSUMPTIONS = ["'exactly those times' is read up to the landing rounding of C03 (64 eps)", "accuracy unit: 200*(atol+rtol*|y|) for embedded pairs, comparison with scipy at 1e3 units"]
+RULE += " Strata added in the fourth seeding round: max_step such that the span is a whole number of steps plus a sliver; event roots bit-exactly on requested output times reported once each."
 FLOORS = {"quick": {"calls_checked": 150, "t_eval_calls": 70, "backward_calls": 40, "max_step_calls": 40, "args_calls": 40, "object_api_comparisons": 100, "scipy_comparisons": 60, "matrix_state_calls": 20, "sliver_max_step_calls": 18, "event_roots_on_output_times": 30},
           "thorough": {"calls_checked": 1500, "t_eval_calls": 700, "backward_calls": 500, "max_step_calls": 400, "args_calls": 400, "object_api_comparisons": 1000, "scipy_comparisons": 600, "matrix_state_calls": 200, "sliver_max_step_calls": 120, "event_roots_on_output_times": 200}}
 METHODS = ["RK45", "RK45CK", "Dormand-Prince", "RK87", "RK108", "RadauIIA5", "LobattoIIIC4", "RK4", "RK5", "Midpoint", "ABAS5O6H", "GaussLegendre4", "BackwardEuler", "AHE"]
